@@ -280,15 +280,15 @@ Section Build.
   Proof.
     intros Hinv. unfold parser_init.
     destruct (s_layout G) as [lp|].
-    - destruct (create_table_inv aug0 gs (mkB lp true true true) Hinv) as [R1 I1].
-      destruct (create_table_inv aug0 (mkG aug0 None) (mkB lp true true true) (ginv_fresh aug0)) as [_ I1'].
-      destruct (create gs (mkB lp true true true)) as [g1 r1].
-      destruct (create (mkG aug0 None) (mkB lp true true true)) as [g1' r1'].
+    - destruct (create_table_inv aug0 gs (mkB lp true true true true) Hinv) as [R1 I1].
+      destruct (create_table_inv aug0 (mkG aug0 None) (mkB lp true true true true) (ginv_fresh aug0)) as [_ I1'].
+      destruct (create gs (mkB lp true true true true)) as [g1 r1].
+      destruct (create (mkG aug0 None) (mkB lp true true true true)) as [g1' r1'].
       cbn [fst snd] in *. subst r1'. destruct r1 as [ltb|ex].
       + assert (J1 : ginv aug0 g1) by (apply I1; discriminate).
         assert (J1' : ginv aug0 g1') by (apply I1'; discriminate).
         destruct (check_parser sr rr false ltb) as [t|ex] eqn:Ec.
-        * set (ob := mkB 1 (negb (o_slr o)) (o_ps o) (o_pse o)).
+        * set (ob := mkB 1 (negb (o_slr o)) (o_ps o) (o_pse o) (negb (o_glr o))).
           destruct (create_table_inv aug0 g1 ob J1) as [R2 I2].
           destruct (create_table_inv aug0 g1' ob J1') as [R2' _].
           destruct (create g1 ob) as [g2 r2]. destruct (create g1' ob) as [g2' r2'].
@@ -298,7 +298,7 @@ Section Build.
           -- cbn. split; [reflexivity|]. intros H. apply I2. intros E. apply H. inversion E; reflexivity.
         * cbn. split; [reflexivity|]. intros _. exact J1.
       + cbn. split; [reflexivity|]. intros H. apply I1. intros E. apply H. inversion E; reflexivity.
-    - set (ob := mkB 1 (negb (o_slr o)) (o_ps o) (o_pse o)).
+    - set (ob := mkB 1 (negb (o_slr o)) (o_ps o) (o_pse o) (negb (o_glr o))).
       destruct (create_table_inv aug0 gs ob Hinv) as [R2 I2].
       destruct (create gs ob) as [g2 r2]. destruct (create (mkG aug0 None) ob) as [g2' r2'].
       cbn [fst snd] in *. subst r2'. destruct r2 as [tb|ex2].
